@@ -18,23 +18,22 @@ Theorem C13_parse_print_tsplib : forall I h k pn,
   read_tsplib_defs (map t_id pn) (print_tsplib h k I) = Ok (expected_tsplib pn I).
 Proof. exact parse_print_tsplib. Qed.
 
-(* ---- Li & Lim.  FULL STATEMENT (does not hold for the code as it is, see _refuted below):
-     forall I, lil_wf I -> read_lilim_defs (print_lilim I) = Ok (expected_lilim I).
-   Proved: the same up to the id and demand of the pickup/delivery sub-jobs (erase_dimens), i.e. pairing, job
-   order, locations, windows, service times, depot, fleet size and capacity are faithful.
-   Missing: signed demands of the pairs — lilim/reader.rs::create_single_job drops them. ---- *)
-Theorem C13_parse_print_lilim_partial : forall I, lil_wf I ->
-  read_lilim_defs (print_lilim I) = Ok (erase_dimens (expected_lilim I)).
-Proof. exact parse_print_lilim_partial. Qed.
+(* ---- Li & Lim: jobs are the pickup/delivery pairs in request order, each sub-job with its id, its signed demand
+   (pickup: dynamic pickup q; delivery: dynamic delivery q = |-q|), location, window, service; depot, fleet, capacity.
+   History: before commit 164f50b (finding C13-F1, lilim/reader.rs::create_single_job built the sub-jobs with
+   `dimens: Default::default()`) only `C13_parse_print_lilim_partial` (equality up to sub-job id/demand) held and
+   `C13_parse_print_lilim_refuted : exists I, lil_wf I /\ read_lilim_defs (print_lilim I) <> Ok (expected_lilim I)`
+   was proved about the then faithful model; both were replaced by the full theorems below after the repair. ---- *)
+Theorem C13_parse_print_lilim : forall I, lil_wf I ->
+  read_lilim_defs (print_lilim I) = Ok (expected_lilim I).
+Proof. exact parse_print_lilim. Qed.
 (* the same for every arrangement of the node lines that keeps the pickups in request order *)
-Theorem C13_parse_print_lilim_any_layout_partial : forall I rows,
+Theorem C13_parse_print_lilim_any_layout : forall I rows,
   1 <= li_number I < two64 -> nat32 (li_capacity I) -> 0 <= li_speed I < two64 -> node_wf (li_depot I) ->
+  Forall (fun r => 0 < rq_q r) (li_reqs I) ->
   lilim_layout I rows ->
-  read_lilim_defs (print_lilim_rows I rows) = Ok (erase_dimens (expected_lilim I)).
+  read_lilim_defs (print_lilim_rows I rows) = Ok (expected_lilim I).
 Proof. exact parse_print_lilim_layout. Qed.
-Theorem C13_parse_print_lilim_refuted :
-  exists I, lil_wf I /\ read_lilim_defs (print_lilim I) <> Ok (expected_lilim I).
-Proof. exact parse_print_lilim_refuted. Qed.
 
 (* ---- coordinates -> location indices: the expected problems above use `all_coords` / `loc_of`; these are faithful:
    the index has no duplicates and the location of every coordinate of the sequence holds that coordinate ---- *)
